@@ -1598,7 +1598,7 @@ func (l *LanguageServer) handleTextDocumentCodeAction(params types.CodeActionPar
 			})
 		}
 
-		if l.clientIdentifier == clients.IdentifierVSCode {
+		if l.clientIdentifier == clients.IdentifierVSCode && diag.CodeDescription != nil {
 			// always show the docs link
 			txt := "Show documentation for " + diag.Code
 			actions = append(actions, types.CodeAction{
